@@ -201,6 +201,17 @@ pub fn gen_ses<W: Write>(w: &mut W, tier: &str, seed: u64) {
         s.dump(true);
         emit(w, "K", &s);
     }
+    // the same limit on an INPUT reply: too long a reply is asked for again, the statement keeps waiting
+    for n in [1020usize, 1023, 1024, 1025, 1026, 1040] {
+        let mut s = Session::new();
+        s.enter("10 INPUT \"NAME\";A$,B");
+        s.enter("20 PRINT LEN(A$);B");
+        s.enter("RUN");
+        let long = format!("{},12", "X".repeat(n - 3));
+        s.run_to_end(5000, &[long, "JOE, 3".to_string()], 30);
+        s.dump(true);
+        emit(w, "K", &s);
+    }
     // every realistic line as a direct statement, and as a one-line program
     for l in LINES {
         if l.contains("RND") {
